@@ -14,7 +14,7 @@ use crate::Ctx;
 use mdv_core::mdparse::{Dump, NormOpts};
 use mdv_core::{json, Report, Value};
 
-const CHANGES: [&str; 4] = ["none", "add-thread", "exit-thread", "rewrite-app-region"];
+const CHANGES: [&str; 5] = ["none", "add-thread", "exit-thread", "rewrite-app-region", "aborted-dump-first"];
 const OPTSETS: [&str; 7] = ["plain", "crash-context", "app-memory", "skip-unreferenced", "size-limit", "all", "blamed-thread-that-may-exit"];
 
 fn opts(set: usize, b: &Built, env: &Env) -> DumpOpts {
@@ -102,6 +102,18 @@ fn run_history(set: usize, hist: &[usize]) -> Res {
                 gen += 1;
                 let data: Vec<u8> = (0..4096 + 200).map(|i| (i as u8).wrapping_mul(gen).wrapping_add(gen)).collect();
                 b.p.write(b.pattern_addrs[0], &data);
+            }
+            4 => {
+                // a request on the same writer that is aborted by a hard error half-way through
+                // (an unreadable application region), after which the caller repairs the configuration
+                reused.app_memory.push(minidump_writer::app_memory::AppMemory { ptr: 0x10, length: 64 });
+                let mut sink = std::io::Cursor::new(Vec::new());
+                let r = dump_with(&mut reused, &mut sink);
+                reused.app_memory.pop();
+                dumps += 1;
+                if matches!(r, DumpResult::Ok(_)) {
+                    return Res { case, fails, dumps, outcome: 9, machinery: Some("the dump with an unreadable app region did not fail".into()) };
+                }
             }
             _ => {}
         }
